@@ -13,6 +13,7 @@ import Umya.Lemmas.XmlEsc
 import Umya.Lemmas.Annot
 import Umya.Lemmas.AnnotNames
 import Umya.Thm.C17
+import Umya.Lemmas.TablesGen
 namespace Umya.Thm.C06
 open Umya.Annot Umya.XmlEsc Umya.Coord
 
@@ -150,5 +151,13 @@ example : undouble (replaceApos "It's a ''test''".toList ++ "'!$A$1".toList) = "
 example : AreaOK ⟨"It's (a) \"q\", b!".toList, ⟨some ⟨3, true⟩, some ⟨7, false⟩, some ⟨16384, false⟩, some ⟨1048576, true⟩⟩⟩ := by
   refine ⟨⟨⟨by simp, by simp⟩, by decide⟩, Or.inr ⟨by simp, by simp, by simp, by simp⟩, ?_⟩
   refine ⟨?_, ?_, ?_, ?_⟩ <;> intro x hx <;> injection hx with hx <;> subst hx <;> simp
+
+
+/-- **Tie to the source (T).**  The attribute channel every annotation goes through is the source's, as
+    regenerated on this run (see `C04_channels_match_source`). -/
+theorem C06_channels_match_source (s : List Char) :
+    Umya.Gen.write_start_tag_escape.run Umya.XmlEsc.escapeOld Umya.XmlEsc.partialEscapeOld s = Umya.XmlEsc.attrWrite s ∧
+    Umya.Gen.applySteps Umya.Gen.get_attribute_value_normalise s = Umya.XmlEsc.attrNorm s :=
+  ⟨Umya.Gen.gen_write_start_tag s, Umya.Gen.gen_get_attribute_value s⟩
 
 end Umya.Thm.C06
